@@ -16,7 +16,9 @@ RULE = ("generated .itp texts: 1..60 atoms (quick) / ..400 (thorough) plus chain
         "trees, chains, stars, forests, cyclic graphs, duplicated bonds; strictly increasing atom numbers with random "
         "start and gaps; bonds spread over [bonds]/[constraints]/[pairs], possibly with one of them occurring twice; "
         "bond lines with 2..6 fields; comment, blank, #include/#ifdef/#endif lines, trailing comments, tabs and "
-        "multiple blanks; other sections (angles, dihedrals, exclusions) between them; 1..4 residues. Non-trivial = "
+        "multiple blanks; other sections (angles, dihedrals, exclusions) between them; 1..4 residues; (rewrite) one path "
+        "holding two different topologies of exactly the same byte size one after the other (and back), with equal or "
+        "free modification times. Non-trivial = "
         "(numbering with a gap and bonds in >=2 sections) or longest path > 1000. Distinct = sha1 of the case JSON.")
 ASSUMPTIONS = [
     "atom numbers are unique and increasing; every bond refers to listed atoms; no self-bonds (GROMACS requirements)",
@@ -103,8 +105,8 @@ def render(name, atoms, numbers, edges, sections, rng, style):
 
 
 @st.composite
-def case_strategy(draw, tier):
-    big = draw(st.integers(0, 24)) == 0
+def case_strategy(draw, tier, with_variant=False):
+    big = draw(st.integers(0, 24)) == 0 and not with_variant
     if big:
         n = draw(st.sampled_from(BIG))
         kind = draw(st.sampled_from(["chain", "chain-sorted", "star"]))
@@ -177,11 +179,32 @@ def case_strategy(draw, tier):
              "tight": draw(st.booleans()), "mass": draw(st.booleans()), "lead": draw(st.booleans()),
              "others": draw(st.booleans()), "fields": draw(st.booleans()), "final_newline": draw(st.booleans())}
     name = draw(st.sampled_from(["MOL", "BMIM", "Protein_A", "x1", "DNA-chain"]))
-    text = render(name, atoms, numbers, edges, sections, rng, style)
+    render_seed = draw(gen.SEEDS)
+    text = render(name, atoms, numbers, edges, sections, np.random.default_rng(render_seed), style)
     used_sections = sorted(set(s for s, ix in sections if ix))
-    return {"name": name, "n": n, "graph": kind, "atoms": atoms, "edges": edges, "numbering": numbering,
+    case = {"name": name, "n": n, "graph": kind, "atoms": atoms, "edges": edges, "numbering": numbering,
             "layout": layout, "sections": [[s, len(ix)] for s, ix in sections], "used_sections": used_sections,
             "style": style, "text": text}
+    if not with_variant:
+        return case
+    # a second topology whose text has exactly the same length: names swapped for names of equal length, bond
+    # endpoints moved to atoms whose file number has as many digits, same layout decisions (same render seed)
+    swap = {"C": "N", "N": "O", "O": "S", "S": "P", "P": "C", "H": "F", "F": "H"}
+    rev = draw(st.booleans())
+    atoms2 = [[swap.get(a[0][0], a[0][0]) + a[0][1:], a[1][::-1] if rev else a[1], a[2]] for a in atoms]
+    by_digits = {}
+    for k, num in enumerate(numbers):
+        by_digits.setdefault(len(str(num)), []).append(k)
+    perm = list(range(n))
+    for ks in by_digits.values():
+        sh = [ks[i] for i in rng.permutation(len(ks))]
+        for a_, b_ in zip(ks, sh):
+            perm[a_] = b_
+    edges2 = [[perm[i], perm[j]] for i, j in edges]
+    name2 = {"MOL": "LIG", "BMIM": "EMIM", "Protein_A": "Protein_B", "x1": "y2", "DNA-chain": "RNA-chain"}[name]
+    text2 = render(name2, atoms2, numbers, edges2, sections, np.random.default_rng(render_seed), style)
+    second = dict(case, name=name2, atoms=atoms2, edges=edges2, text=text2)
+    return {"versions": [case, second], "same_mtime": draw(st.booleans()), "third": draw(st.booleans())}
 
 
 def longest_path_lower_bound(n, edges):
@@ -206,6 +229,39 @@ def check(case):
     path = env.fresh_path(".itp")
     with open(path, "w") as f:
         f.write(case["text"])
+    return check_at(path, case)
+
+
+def check_rewrite(case):
+    """One path holding different topologies one after the other (equal byte size, optionally equal mtime)."""
+    import os
+    path = env.fresh_path(".itp")
+    a, b = case["versions"]
+    order = [a, b] + ([a] if case["third"] else [])
+    info = None
+    for k, v in enumerate(order):
+        with open(path, "w") as f:
+            f.write(v["text"])
+        if case["same_mtime"]:
+            os.utime(path, (1700000000, 1700000000))
+        try:
+            info = check_at(path, v)
+        except PropertyViolation as exc:
+            if k == 0:
+                raise
+            raise PropertyViolation("rewritten-" + exc.clause, "after the path was rewritten (%d-th content, sizes %d/%d "
+                                    "bytes, same mtime: %s): %s" % (k + 1, len(a["text"]), len(b["text"]), case["same_mtime"],
+                                                                    exc.message), cls="rewritten")
+    same = len(a["text"]) == len(b["text"])
+    differs = a["edges"] != b["edges"] or a["atoms"] != b["atoms"]
+    info["nontrivial"] = same and differs
+    info["classes"] = ["same-size" if same else "other-size", "same-mtime" if case["same_mtime"] else "mtime-free",
+                       "graph-differs" if a["edges"] != b["edges"] else "graph-same"]
+    info["sample"] = {"first": a["text"][:300], "second": b["text"][:300]}
+    return info
+
+
+def check_at(path, case):
     n = case["n"]
     edges = [tuple(e) for e in case["edges"]]
     exp_atoms = [tuple(a) for a in case["atoms"]]
@@ -291,4 +347,7 @@ def check(case):
 SUBCHECKS = [
     Sub("topology", check, strategy=lambda tier: case_strategy(tier), quick=1500, thorough=30000,
         min_share={"path>1000": 0.01, "layout:repeat-bonds": 0.08, "numbering:gaps": 0.3}),
+    Sub("rewrite", check_rewrite, strategy=lambda tier: case_strategy("quick", with_variant=True), quick=400, thorough=6000,
+        min_share={"same-size": 0.5, "graph-differs": 0.3},
+        note="the same path rewritten with another topology of equal byte size (and equal mtime) between loads"),
 ]
